@@ -30,6 +30,9 @@ type Obligation struct {
 	Serves    []string
 	Canary    bool   // passes unless the solver proves unsat (vacuity guard); short timeout
 	FindingID string // proving this obligation demonstrates a known finding (not a proof obligation of the property)
+	// bounded stand-ins run on the real code: the job that ran (re-run by --replay)
+	HarnessPkg string
+	HarnessJob *replayJob
 }
 
 type FuncCtx struct {
@@ -376,7 +379,7 @@ func (fx *FuncCtx) fresh(t types.Type, hint string) Val {
 			// element well-formedness is assumed at reads
 			return VStrs{B: bb, O: oo, L: ll, N: n}
 		}
-		if en, ok := elemName(u.Elem()); ok {
+		if en, ok := refLikeElem(u.Elem()); ok {
 			n := fx.declare(sortInt, hint+"_n")
 			fx.emit(fmt.Sprintf("(assert (and (<= 0 %s) (< %s %s)))", n, n, maxLen))
 			return VRefs{Arr: fx.declare(sortArr, hint+"_refs"), N: n, Elem: en}
@@ -431,6 +434,11 @@ func (fx *FuncCtx) fresh(t types.Type, hint string) Val {
 			r := fx.declare(sortInt, hint)
 			fx.emit(fmt.Sprintf("(assert (<= 0 %s))", r))
 			return VErr{r}
+		}
+		if en, ok := ifaceElemName(t); ok {
+			r := fx.declare(sortInt, hint)
+			fx.emit(fmt.Sprintf("(assert (<= 0 %s))", r))
+			return VRef{r, en}
 		}
 		if u.NumMethods() == 0 {
 			tag := fx.declare(sortInt, hint+"_tag")
